@@ -126,6 +126,12 @@ TRUSTED = [
     "harness/c08.py + harness/frames.py (generator, nested-list reference evaluator, Coq printer)",
 ]
 ASSUMPTIONS = [
+    "rejections are demanded only where the statement names them (mismatched column sets incl. embedding widths / dict "
+    "key sets under the same names, duplicated column names, conflicting targets, empty lists, construction with parts "
+    "that disagree on rows or columns); where the current code raises without such backing (a stype without columns, a "
+    "1-D feature tensor, an unsupported dim, a storage-kind or trailing-shape mismatch in a row cat, == with a non-frame) "
+    "the oracle accepts a raise or a readable result and the Coq term is not compared when the implementation returned "
+    "normally; get_col_feat of an absent name must not return a column's data ('names and data still paired')",
     "difference detection is proved relative to an abstract per-scalar `close` (torch.allclose on one pair); the "
     "correspondence instantiates it with equality on the 1/8 grid; torch's own decision is validated on both sides of "
     "atol + rtol*|other| every run (extra: exact-rational reference, both operand orders, float32/float64, NaN) and "
@@ -1378,8 +1384,21 @@ def run(case):
 # ------------------------------------------------------------------- oracle
 DEMANDED = ("empty list", "column sets differ", "some parts have a target", "more than one part has a target",
             "duplicated column names", "row counts differ", "column counts differ",
-            "feat_dict and col_names_dict", "columns of data for", " rows, frame has ", "no columns",
-            "y has ", "fewer than 2 dimensions", "embedding widths differ", "dict keys differ")
+            "feat_dict and col_names_dict", "columns of data for", " rows, frame has ",
+            "y has ", "embedding widths differ", "dict keys differ")
+# statement words backing each demanded rejection:
+#   "mismatched column sets ... are rejected"   : column sets differ, column counts differ, embedding widths differ,
+#                                                 dict keys differ (the same names over different data layouts; fix commits)
+#   "duplicated column names ... are rejected"  : duplicated column names
+#   "conflicting targets ... are rejected"      : some parts have a target / more than one part has a target
+#   "empty lists are rejected"                  : empty list
+#   "construction rejects frames whose parts disagree on the number of rows or columns":
+#                                                 ' rows, frame has ', 'y has ', 'columns of data for', 'row counts differ'
+#                                                 (the concatenated frame's parts disagree on rows), stype present in only
+#                                                 one of feat_dict / col_names_dict (names without data, data without names)
+# NOT backed (the current code raises; "raise or consistent"): a stype with no column ("no columns"), a 1-D feature tensor,
+# an unsupported dim, storage kind / trailing shape mismatch in a row cat -- a raise or any readable frame is accepted and
+# the Coq term is not compared when the implementation returned normally.
 
 
 def demanded(msg):
@@ -1483,6 +1502,9 @@ def oracle(case, obs):
         ra, ra_err = None, str(ex)
     oa = obs["a"]
     if ra_err is not None:
+        if oa["ok"] and not demanded(ra_err) and oa.get("frame") is None:
+            return dict(key=f"unreadable:{kind}", what=f"{kind}/{sub}: accepted input ({ra_err}) gave a frame that cannot be "
+                        f"read ({oa.get('read_exc')})")
         if oa["ok"] and demanded(ra_err):
             return dict(key=f"accepts:{sub}", what=f"{kind}/{sub}: the library accepted input the property requires it "
                         f"to reject ({ra_err})", expected="raise", observed=oa.get("frame"))
@@ -1505,7 +1527,7 @@ def oracle(case, obs):
     if oa.get("props") != F.ref_props(ra):
         return dict(key="props-wrong", what=f"{kind}/{sub}: num_rows / num_cols / stypes / is_empty / len do not describe "
                     "the frame", expected=F.ref_props(ra), observed=oa.get("props"))
-    if any(v is not False for v in oa.get("eq_other", [])):
+    if any(v is True for v in oa.get("eq_other", [])):      # False or a raise; never equal
         return dict(key="eq-nonframe", what=f"{kind}/{sub}: a TensorFrame compared with a non-frame is not simply unequal",
                     expected=False, observed=oa.get("eq_other"))
     if oa.get("eq_self") is not True and (ra["y"] is None or all(v is not None for v in ra["y"])):
@@ -1766,8 +1788,21 @@ def coq_term(case, obs):
     return "(" + " && ".join([t] + st) + ")" if st else t
 
 
+def undemanded_accept(e, ob):
+    """the current code raises here without backing from the statement, and the implementation returned normally"""
+    if e is None or not ob or not ob.get("ok"):
+        return False
+    try:
+        F.ref_ev(e)
+    except R.RefErr as ex:
+        return not demanded(str(ex))
+    return False
+
+
 def coq_term_main(case, obs):
     if not isinstance(obs, dict) or "a" not in obs:
+        return None
+    if case["kind"] != "reuse" and (undemanded_accept(case["a"], obs.get("a")) or undemanded_accept(case.get("b"), obs.get("b"))):
         return None
     if case["kind"] == "reuse":
         # the model is pure: reuse of an object is re-evaluation of the expression it is bound to
